@@ -53,6 +53,7 @@ def run(rep: Report, tier: str) -> None:
 	rule_i(rep, idx)
 	rule_j(rep)
 	rule_k(rep, idx)
+	rule_l(rep, idx)
 
 
 def _errors_classes(idx: SourceIndex) -> dict[str, object]:
@@ -764,3 +765,43 @@ def rule_k(rep: Report, idx: SourceIndex) -> None:
 def has_raise_in_helpers(f, want: str) -> bool:
 	from vlib.norm import helper_closure
 	return any(raised_name(n) == want for g in helper_closure(f, 2) for n in ast.walk(g.node) if isinstance(n, ast.Raise))
+
+
+# ---- (l) walks over the class graph terminate ---------------------------------------------------------------------------------
+
+def rule_l(rep: Report, idx: SourceIndex) -> None:
+	"""`processing terminates` for every input, valid or not: the base-class graph of the input may contain a cycle (`class A(B)` / `class B(A)`; never valid
+	Python, but text the loader accepts). A walk over `.inherits` written as recursion ends in RecursionError, which the event boundary turns into
+	Errors.Fatal; the same walk written as a work-list loop (`while pending: c = pending.pop(0); ...; pending.extend(c.inherits)`) runs forever unless
+	it remembers the classes it has seen. Every such loop in the semantics layer must test membership in a collection it grows (or be bounded by a counter)."""
+	from vlib.match import nodes
+	r = rep.rule('C07/class-graph-worklists-terminate', 'every while-loop of the semantics layer whose work-list is refilled from `.inherits` keeps a visited collection (a membership test on a container the loop grows) — a cyclic base-class graph must end in an error, not in an endless loop', floor=1)
+	n_loops = 0
+	for rel in idx.glob('rogw/tranp/semantics/**/*.py'):
+		m = idx.mod(rel)
+		for q, f in m.functions.items():
+			for lp in [n for n in walk_no_nested(f.node) if isinstance(n, ast.While)]:
+				work = {x.id for x in ast.walk(lp.test) if isinstance(x, ast.Name)}
+				refills = []
+				for st in nodes(lp, (ast.Assign, ast.AugAssign, ast.Expr)):
+					val = st.value
+					tgt = None
+					if isinstance(st, ast.Assign) and isinstance(st.targets[0], ast.Name):
+						tgt = st.targets[0].id
+					elif isinstance(st, ast.AugAssign) and isinstance(st.target, ast.Name):
+						tgt = st.target.id
+					elif isinstance(st, ast.Expr) and isinstance(val, ast.Call) and isinstance(val.func, ast.Attribute) and val.func.attr in ('extend', 'append', 'insert') and isinstance(val.func.value, ast.Name):
+						tgt = val.func.value.id
+					if tgt in work and any(isinstance(x, ast.Attribute) and x.attr == 'inherits' for x in ast.walk(val)):
+						refills.append(st)
+				if not refills:
+					continue
+				n_loops += 1
+				key = f'{q}:while {unparse(lp.test)[:40]}'
+				grown = {c_.func.value.id for c_ in nodes(lp, ast.Call) if isinstance(c_.func, ast.Attribute) and c_.func.attr in ('append', 'add', 'extend') and isinstance(c_.func.value, ast.Name) and c_.func.value.id not in work}
+				grown |= {st.targets[0].value.id for st in nodes(lp, ast.Assign) if isinstance(st.targets[0], ast.Subscript) and isinstance(st.targets[0].value, ast.Name)}
+				seen_tests = [c_ for c_ in nodes(lp, ast.Compare) if isinstance(c_.ops[0], (ast.In, ast.NotIn)) and isinstance(c_.comparators[0], ast.Name) and c_.comparators[0].id in grown]
+				counters = [st for st in nodes(lp, ast.AugAssign) if isinstance(st.op, ast.Add) and isinstance(st.target, ast.Name) and st.target.id in work and isinstance(st.value, ast.Constant)]
+				r.check(bool(seen_tests) or bool(counters), key, (rel, lp.lineno), f'{q} walks the base classes with a work-list (`{unparse(refills[0])[:70]}`) and never checks whether a class was visited before: for a cyclic hierarchy (`class A(B)` / `class B(A)`) and a looked-up member that no class on the cycle declares the loop never ends — no error is raised, the interactive loop hangs (the recursive form of such a walk ends in RecursionError -> Errors.Fatal)', unparse(lp.test))
+	if n_loops == 0:
+		r.ok('no-worklist-over-inherits', None, message='no while-loop of the semantics layer refills its work-list from .inherits (the walks are recursive)')
